@@ -285,17 +285,22 @@ def updExprs : Upd → List Expr
 
 /-- static Python kind of the fold: iterate the kind of the update from the seed's kind to a fixed point -/
 def aggKind (seed : Expr) (u : Upd) : PK × Nat :=
-  let kindOf (acc : CT) : PK × Nat :=
+  let kindOf (acc : CT) : PK :=
     match u with
-    | .plain e => ((e.retype acc).pyKind true, (e.retype acc).width)
-    | .cond _ a b => (condKind (a.retype acc) (b.retype acc), condWidth (a.retype acc) (b.retype acc))
+    | .plain e => (e.retype acc).pyKind true
+    | .cond _ a b => condKind (a.retype acc) (b.retype acc)
+  -- "at least as wide as every value folded in": the accumulator itself is not one of them
+  let w : Nat :=
+    match u with
+    | .plain e => (e.retype .int).width
+    | .cond _ a b => condWidth (a.retype .int) (b.retype .int)
   let k0 := seed.pyKind true
   let ct (k : PK) : CT := match k with | .int => .int | .bool => .bool | .float => .double
-  let (k1, w1) := kindOf (ct k0)
+  let k1 := kindOf (ct k0)
   let j1 := if k0 = .float || k1 = .float then PK.float else PK.int
-  let (k2, w2) := kindOf (ct j1)
+  let k2 := kindOf (ct j1)
   let j2 := if j1 = .float || k2 = .float then PK.float else PK.int
-  (j2, max seed.width (max w1 w2))
+  (j2, max seed.width w)
 
 def factsOf : FormE → FormFacts
   | .plain e => { kind := e.pyKind true, width := e.width, mustAccept := e.mustAccept, excluded := !e.noDefect }
